@@ -120,6 +120,10 @@ M = [
     ("C20-matching2-stops-early", ["C20"], "renormalizer/lib/bipartite_matching/bipartite_matching.py",
      "    for u in range(nU):\n        augment(u, bigraph, [False] * nV, match)", "    for u in range(max(nU - 1, 1)):\n        augment(u, bigraph, [False] * nV, match)"),
     ("C03-normalize-norm-to-coeff-divides", ["C03"], "renormalizer/mps/mps.py", "        new_coeff = tn.coeff * tn_norm\n", "        new_coeff = tn.coeff / tn_norm\n"),
+    ("C14-thermal-result-misses-last-energy", ["C14"], "renormalizer/mps/thermalprop.py", 'dump_dict["energies"] = self.energies',
+     'dump_dict["energies"] = self.energies[:-1]'),
+    ("C14-state-dump-all-off-by-one", ["C14"], "renormalizer/utils/tdmps.py", 'self.job_name+"_mps_"+str(len(self.evolve_times)-1) + ".npz")',
+     'self.job_name+"_mps_"+str(len(self.evolve_times)-2) + ".npz")'),
     ("C15-simplify-sums-abs", ["C15"], "renormalizer/model/op.py", None, None),
     ("C18-svd-qn-block-order", ["C18", "C04"], "renormalizer/mps/svd_qn.py", None, None),
     ("C20-cover-drops-isolated", ["C20"], "renormalizer/lib/bipartite_matching/bipartite_matching.py", None, None),
